@@ -16,6 +16,7 @@ mod replay;
 mod text;
 
 use std::collections::BTreeSet;
+use std::sync::Arc;
 use vcore::trace::Shards;
 use vcore::{json, Args, Rng, Value};
 
@@ -121,7 +122,42 @@ impl Inp {
     }
 }
 
-fn run(inp: &Inp, cuts: &[usize], bs: usize, mode: &str) -> Sess {
+/// A decoder that does not return is an outcome, not a stuck check: every session runs on its own thread
+/// and is given WATCHDOG to finish ("hang:NoReturn"; the thread is abandoned).
+const WATCHDOG: std::time::Duration = std::time::Duration::from_secs(30);
+pub static HANGS: std::sync::atomic::AtomicUsize = std::sync::atomic::AtomicUsize::new(0);
+
+fn watched<T: Send + 'static>(f: impl FnOnce() -> T + Send + 'static) -> Option<T> {
+    let (tx, rx) = std::sync::mpsc::channel();
+    std::thread::spawn(move || {
+        let _ = tx.send(f());
+    });
+    match rx.recv_timeout(WATCHDOG) {
+        Ok(v) => Some(v),
+        Err(_) => {
+            HANGS.fetch_add(1, std::sync::atomic::Ordering::SeqCst);
+            None
+        }
+    }
+}
+
+fn hung() -> Sess {
+    let mut s = Sess::default();
+    s.fail("hang", "NoReturn");
+    s
+}
+
+fn run(inp: &Arc<Inp>, cuts: &[usize], bs: usize, mode: &str) -> Sess {
+    let (i, c, m) = (inp.clone(), cuts.to_vec(), mode.to_string());
+    watched(move || run_inner(&i, &c, bs, &m)).unwrap_or_else(hung)
+}
+
+fn oneshot(inp: &Arc<Inp>, bs: usize) -> Option<Sess> {
+    let i = inp.clone();
+    watched(move || oneshot_inner(&i, bs)).unwrap_or_else(|| Some(hung()))
+}
+
+fn run_inner(inp: &Inp, cuts: &[usize], bs: usize, mode: &str) -> Sess {
     let r = vcore::guarded(|| match &inp.cfg {
         Cfg::Ipc(_) => ipc::run(inp, cuts, mode),
         Cfg::Csv(c) => text::run_csv(inp, c, cuts, bs, mode),
@@ -138,7 +174,7 @@ fn run(inp: &Inp, cuts: &[usize], bs: usize, mode: &str) -> Sess {
     })
 }
 
-fn oneshot(inp: &Inp, bs: usize) -> Option<Sess> {
+fn oneshot_inner(inp: &Inp, bs: usize) -> Option<Sess> {
     let r = vcore::guarded(|| match &inp.cfg {
         Cfg::Ipc(_) => Some(ipc::oneshot(inp)),
         Cfg::Csv(c) => Some(text::oneshot_csv(inp, c, bs)),
@@ -183,7 +219,7 @@ struct Out {
 }
 
 impl Out {
-    fn oneshot(&mut self, id: usize, inp: &Inp, bs: usize) {
+    fn oneshot(&mut self, id: usize, inp: &Arc<Inp>, bs: usize) {
         let r = oneshot(inp, bs);
         let has = r.is_some();
         let r = r.unwrap_or_default();
@@ -198,7 +234,7 @@ impl Out {
             "bodies": bodies,
         }));
     }
-    fn session(&mut self, id: usize, inp: &Inp, bs: usize, cuts: &[usize], mode: &str, pick: bool) {
+    fn session(&mut self, id: usize, inp: &Arc<Inp>, bs: usize, cuts: &[usize], mode: &str, pick: bool) {
         let s = run(inp, cuts, bs, mode);
         let (off, con) = if s.offered.len() <= MAX_CALLS { (s.offered.clone(), s.consumed.clone()) } else { (vec![], vec![]) };
         let tot: i64 = s.consumed.iter().sum();
@@ -430,7 +466,9 @@ fn main() {
     inputs.extend(avro::inputs(&mut rng.fork(), thorough));
     inputs.extend(pq::inputs(&mut rng.fork(), thorough));
     inputs.extend(flight::inputs(&mut rng.fork(), thorough));
+    let inputs: Vec<Arc<Inp>> = inputs.into_iter().map(Arc::new).collect();
     for (id, inp) in inputs.iter().enumerate() {
+        let hangs0 = HANGS.load(std::sync::atomic::Ordering::SeqCst);
         if let Some(f) = &only {
             if !inp.fmt.starts_with(f.as_str()) && !inp.name.contains(f.as_str()) {
                 continue;
@@ -446,6 +484,10 @@ fn main() {
             // an even sample of the sessions is also logged call by call (IPC, Trace_Ipc.tla)
             let stride = (plans.len() / out.ipc_limit).max(1);
             for (j, (cuts, mode)) in plans.iter().enumerate() {
+                // a few sessions that never return are evidence enough: do not pile up abandoned threads
+                if HANGS.load(std::sync::atomic::Ordering::SeqCst) >= hangs0 + 3 {
+                    break;
+                }
                 out.session(id, inp, bs, cuts, mode, j % stride == 0);
             }
             out.t.next_episode();
@@ -456,7 +498,10 @@ fn main() {
     let ipc_sessions = out.ipc_sessions;
     let events = out.t.finish() + out.ipc.finish();
     println!(
-        "DRIVER c14 inputs={ninputs} sessions={sessions} events={events} error_sessions={errs} max_input_bytes={bmax} ipc_call_sessions={ipc_sessions} {}",
+        "DRIVER c14 inputs={ninputs} sessions={sessions} events={events} error_sessions={errs} max_input_bytes={bmax} ipc_call_sessions={ipc_sessions} hangs={} {}",
+        HANGS.load(std::sync::atomic::Ordering::SeqCst),
         per.join(" ")
     );
+    // abandoned threads may still be spinning
+    std::process::exit(0);
 }
